@@ -405,15 +405,21 @@ func (lb *LoadBalancer) processHealthCheckResponse(backend *Backend, resp *http.
 	// If we get here, the backend is healthy
 	vgate("probe:lock")
 	backend.Mutex.Lock()
+	// A probe that was sent before the backend was ejected must not cut the
+	// unhealthy window short: only the window's expiry re-admits the backend
+	if !backend.IsHealthy && !time.Now().After(backend.UnhealthyUntil) {
+		backend.Mutex.Unlock()
+		return
+	}
 	wasUnhealthy := !backend.IsHealthy
 	backend.IsHealthy = true
-	backend.Mutex.Unlock()
 
-	vgate("probe:mirror")
-	// Update metrics to reflect healthy status
+	// Update metrics to reflect healthy status (under the backend lock, so a
+	// later ejection cannot be overtaken by this update)
 	if lb.metricsCollector != nil {
 		lb.metricsCollector.UpdateBackendHealth(backend.Name, true)
 	}
+	backend.Mutex.Unlock()
 
 	if wasUnhealthy {
 		logging.L().Info().Str("backend", backend.Name).Msg("backend marked healthy via active check")
@@ -563,13 +569,13 @@ func (lb *LoadBalancer) IsBackendHealthy(backend *Backend) bool {
 		// Double-check after acquiring write lock to prevent race condition
 		if !backend.IsHealthy && time.Now().After(backend.UnhealthyUntil) {
 			backend.IsHealthy = true
-			backend.Mutex.Unlock()
 
-			vgate("hb:mirror")
-			// Update metrics to reflect healthy status
+			// Update metrics to reflect healthy status (under the backend lock, so
+			// a later ejection cannot be overtaken by this update)
 			if lb.metricsCollector != nil {
 				lb.metricsCollector.UpdateBackendHealth(backend.Name, true)
 			}
+			backend.Mutex.Unlock()
 
 			logging.L().Info().Str("backend", backend.Name).Msg("backend marked healthy")
 			return true
